@@ -2,7 +2,7 @@
   C17 — Resume bookkeeping maintenance never loses the live resume position.
 
   Property theorems only (helper lemmas: Proofs/Checkpoint.lean,
-  Proofs/CheckpointOps.lean, Proofs/CheckpointUpdate.lean; the migration of the
+  Proofs/CheckpointOps.lean, Proofs/CheckpointUpdate.lean, Proofs/CheckpointRerun.lean; the migration of the
   bidirectional namespace: Proofs/CheckpointMigrate.lean).
 
   Quantifier: every initial bookkeeping state satisfying the stated
